@@ -144,7 +144,13 @@ def gen_regex(rng, depth=2):
             return '(' + g(d - 1) + ')'
         if r < 17:
             x = atom() if rng.chance(0.6) else '(?:' + plain(d - 1) + ')'
-            return x + rng.choice(['*', '+', '?', '+?', '*?', '??', '{2}'])
+            q = rng.choice(['*', '+', '?', '+?', '*?', '??', '{2}'])
+            if '|' in x and q in ('*', '+', '+?', '*?'):
+                # an unbounded quantifier over an alternation whose branches can match the same character (`(?:\S|[^\n])+?`)
+                # makes Python's backtracking matcher exponential when the overall match fails: the branches become a sequence
+                # (done on the finished string, so the random stream of every other case is unchanged)
+                x = x.replace('|', '')
+            return x + q
         if r < 18:
             return '^' + g(d - 1)
         if r < 19:
